@@ -79,6 +79,7 @@ extern "C" void proof_copy() {
   uint8_t ans[2][32] = {};
   Slot s1; g_run = 0; g_pos = 0; Instance* a = construct(s1);
   a->update();
+  a->changeTo((StateID) (1 + (VD_SCRIPT + 2) % 5));              // a request queued from outside is still pending when the copy is taken: the copy must carry it
   const unsigned pos_at_copy = g_pos, len_at_copy = g_len[0];
   Slot s2; Instance* b = new (&s2.fsm) Instance(*a);              // copy
   drive(*a, ans[0]);
